@@ -725,7 +725,7 @@ struct AdfFile * adfFileOpen ( struct AdfVolume * const vol,
         return NULL;
     }
 
-    if ( modeRead && hasR ( entry.access ) ) {
+    if ( fileAlreadyExists && modeRead && hasR ( entry.access ) ) {
         adfEnv.wFct ( "adfFileOpen : read access denied to '%s'", name );
         return NULL;
     }
